@@ -257,7 +257,10 @@ class Interp:
         env.vars["__cls__"] = cls
         env.vars["__yields__"] = []
         self._bind(node.args, args, kwargs, env, relpath, cls)
-        is_gen = any(isinstance(n, (ast.Yield, ast.YieldFrom)) for n in _walk_own(node))
+        cache = self.__dict__.setdefault("_gen_cache", {})
+        is_gen = cache.get(id(node))
+        if is_gen is None:
+            is_gen = cache[id(node)] = any(isinstance(n, (ast.Yield, ast.YieldFrom)) for n in _walk_own(node))
         try:
             if isinstance(node, ast.Lambda):
                 return self.eval(node.body, env)
